@@ -350,7 +350,7 @@ fn equal_month(sn1: &SnapshotFile, sn2: &SnapshotFile) -> bool {
 ///
 /// Whether the week of the snapshots is equal
 fn equal_week(sn1: &SnapshotFile, sn2: &SnapshotFile) -> bool {
-    equal_year(sn1, sn2)
+    sn1.time.clone().iso_week_date().year() == sn2.time.clone().iso_week_date().year()
         && sn1.time.clone().iso_week_date().week() == sn2.time.clone().iso_week_date().week()
 }
 
